@@ -38,7 +38,8 @@ namespace
     // the configurable codec also runs with alphabets of the user's own (gstuff_context is a plain struct of six bytes): a printable one
     // (all markers and codes below 0x80) and an HDLC-like one (start == stop, below 0x80)
     const Alphabet ALPHA_PRINT = {'{', '}', '\\', '(', ')', '/'};
-    const Alphabet ALPHA_HDLC = {0x7E, 0x7E, 0x7D, 0x5E, 0x5E, 0x5D};
+    // (the markers coincide, their escape codes do not - the shipped v0 alphabet is the one where both pairs coincide)
+    const Alphabet ALPHA_HDLC = {0x7E, 0x7E, 0x7D, 0x5E, 0x5F, 0x5D};
     // ... and one in which the stuffing byte escapes itself by doubling (code for the stuffing byte == the stuffing byte)
     const Alphabet ALPHA_DOUBLING = {'[', ']', '%', '<', '>', '%'};
     enum { VAR_CFG_V1 = 0, VAR_CFG_V0 = 1, VAR_LEGACY = 2, VAR_CFG_PRINT = 3, VAR_CFG_HDLC = 4, VAR_CFG_DOUBLING = 5, VAR_N = 6 };
